@@ -23,7 +23,7 @@ add("C02", "SEQ", "model_checking", "explicit-state BFS over push/delete/restart
     TRUSTED, "DESIGN.md section 4 C02")
 
 add("C04", "SEQ", "model_checking", "explicit-state BFS (bounded depth) applying a push matrix in every reachable repository state, differential oracle around refusals",
-    "A matrix of 14 manifest bodies x 10 reference/parameter shapes is applied in every repository state reachable within the depth bound on both stores; a push is acknowledged iff the model predicate (valid reference, supported type consistent with the body, parses, all references present in this repository) holds, a refusal must be a 4xx and the complete read transcript before and after it must be equal.",
+    "A matrix of 24 manifest bodies x 10 reference/parameter shapes is applied in every repository state reachable within the depth bound on both stores and on the memory store over a directory; a push is acknowledged iff the model predicate (valid reference, supported type consistent with the body, parses, all references present in this repository) holds, a refusal must be a 4xx and the complete read transcript before and after it must be equal.",
     TRUSTED, "DESIGN.md section 4 C04")
 
 add("C08", "SEQ", "model_checking", "explicit-state BFS over session histories on the implementation (bounded depth) with virtual time driving the real cache timers",
@@ -42,7 +42,7 @@ add("C14", "SEQ", "model_checking", "explicit-state BFS over request histories p
     "For a family of pre-existing directory contents x store flavours x all combinations of the API switches, all histories up to the depth bound of every mutating verb, full reads, collection tick, cache expiry and close+reopen are explored; no mutating filesystem call may be issued under a read-only root, the recursive snapshot of the root equals the initial one in every state, refused requests are 4xx with an unchanged read transcript, and reads equal those of a writable store on a copy.",
     TRUSTED, "DESIGN.md section 4 C14")
 
-add("C05", "SEQ", "model_checking", "explicit-state BFS over push/delete/time/collection histories on the implementation (bounded depth) with the real ticker goroutine driven by a virtual clock",
+add("C05", "SEQ", "model_checking", "explicit-state BFS over push/delete/time/collection histories on the implementation (bounded depth) with the real ticker goroutine driven by a virtual clock, plus stateless search over the interleavings of a collection tick with a push in flight",
     "All histories up to the depth bound of complete and step-by-step pushes over an object-graph universe (images, nested indexes, referrers of referrers, dangling and circular subjects, a digest in several roles), deletes, virtual time and collection ticks (delivered to the real gcTicker; the directory store also collects through its repository cache timer) are explored for 8 / 32 policy combinations on both stores; in every distinct state the model's must-retain set must be served. The schedule part (a pending tick racing a step-by-step push) is part of the SCHED scenarios.",
     TRUSTED, "DESIGN.md section 4 C05")
 
@@ -54,7 +54,7 @@ add("C10", "SEQ", "model_checking", "explicit-state BFS over step-by-step histor
     "All histories up to the depth bound of step-by-step pushes (three digest algorithms), deletes, collection ticks at any point, cache expiry and restarts over repositories r, r/n and s, with a frozen clock and with 2 s per request; every request is mirrored to a memory store. In every distinct state each repository directory is validated as an OCI layout equal to the API state, and the read transcript is compared with the memory store, with a memory store layered over the directory, and with the directory store itself after Close + reopen.",
     TRUSTED, "DESIGN.md section 4 C10")
 
-add("C09", "CRASH", "fault_enumeration", "exhaustive crash-point and torn-write enumeration of filesystem histories through the os shim, recovery oracle after reopen",
+add("C09", "CRASH", "fault_enumeration", "exhaustive crash-point and torn-write enumeration of filesystem histories through the os shim, recovery oracle after reopen (incl. a push after the recovery that must survive an ordinary restart)",
     "For every history up to length 3 / 4 over 12 single-request operations from four start states (plus longer scripts), every mutating filesystem call of the directory store is a crash point and every write is torn at three offsets; the directory left behind is reopened by a new server and must load, hold only blob files that hash to their names, resolve every tag to a complete image, and show either the state before or the state after the interrupted request on all read endpoints, with every earlier acknowledged request in effect.",
     TRUSTED + " Process-crash model (no loss of un-synced pages).", "DESIGN.md section 4 C09")
 
